@@ -62,7 +62,7 @@ func (s *scen) decode(n *chainsim.SNode) *sview {
 		blobbers: map[string]*storagesc.VerifBlobber{}, rps: map[string]currency.Coin{}, assigners: map[string]*storagesc.VerifAssigner{},
 		readConns: map[string]*storagesc.ReadMarker{}}
 	confPath := string(util.Path(encryption.Hash(storagesc.VerifConfigKey())))
-	for _, l := range n.Leaves {
+	for _, l := range leavesOf(n) {
 		if world.Tap.IsAccount(l.Path) {
 			if l.Path == storagesc.ADDRESS {
 				if st, ok := chainsim.DecodeAccount(l.Value); ok {
@@ -152,14 +152,24 @@ func (s *scen) decode(n *chainsim.SNode) *sview {
 	return v
 }
 
+// leavesOf returns the leaves of a state; engines that do not keep them (the environment-
+// differential explorer) have them read from the state trie on demand.
+func leavesOf(n *chainsim.SNode) []world.Leaf {
+	if n.Leaves != nil {
+		return n.Leaves
+	}
+	return world.Leaves(n.N.State)
+}
+
 // node reads one contract node of a state by its plaintext key.
 func (s *scen) node(n *chainsim.SNode, key string, out interface{ UnmarshalMsg([]byte) ([]byte, error) }) bool {
 	p := string(util.Path(encryption.Hash(key)))
-	i := sort.Search(len(n.Leaves), func(i int) bool { return n.Leaves[i].Path >= p })
-	if i >= len(n.Leaves) || n.Leaves[i].Path != p {
+	ls := leavesOf(n)
+	i := sort.Search(len(ls), func(i int) bool { return ls[i].Path >= p })
+	if i >= len(ls) || ls[i].Path != p {
 		return false
 	}
-	_, err := out.UnmarshalMsg(n.Leaves[i].Value)
+	_, err := out.UnmarshalMsg(ls[i].Value)
 	return err == nil
 }
 
